@@ -46,9 +46,33 @@ def contributions(ev, events, coll, loops=()):
             if coll[0] == "call" and x[1] == coll[1]:
                 out.append(("yield", x[2], loops))
         elif x[0] == "loop":
-            for it in x[1].iters:
-                out.extend(contributions(ev, it.path.events, coll, loops + (x[1],)))
+            L = x[1]
+            whole = _pushes_every_element(ev, L, coll)
+            if whole:
+                # `for x in xs { coll.push(x) }` is `coll.extend(xs)`
+                out.append(("add", "extend", L.source, loops))
+                continue
+            for it in L.iters:
+                out.extend(contributions(ev, it.path.events, coll, loops + (L,)))
     return out
+
+
+def _pushes_every_element(ev, L, coll):
+    """The loop is a full traversal whose every step appends exactly the current element to `coll` and does nothing else to it."""
+    from ..semcov import _term_class
+    if L.source is None or L.kind == "while" or L.stages or not Q.is_full(L) or _term_class(ev, L.source) != "full" or L.elem is None:
+        return False
+    n = 0
+    for it in L.iters:
+        if it.end != "continue":
+            continue
+        n += 1
+        touching = [x for x in it.path.events if (x[0] == "call" and not x[2].local and x[3] and Q.strip(ev, x[3][0]) == coll and x[2].name in S.SHAPE_MUTATORS) or x[0] == "loop"]
+        if len(touching) != 1 or touching[0][0] != "call" or touching[0][2].name != "push" or len(touching[0][3]) != 2:
+            return False
+        if Q.strip(ev, touching[0][3][1]) != L.elem:
+            return False
+    return n >= 1
 
 
 def union(ctx, report, facts, config, rule="C07.UNION"):
@@ -84,7 +108,7 @@ def union(ctx, report, facts, config, rule="C07.UNION"):
                     continue
                 v = Q.strip(ev, k[2], extra=("into_iter",))
                 vc = Q.callee_of(ev, v)
-                if k[0] == "add" and k[1] in ("extend", "append") and not k[3] and vc is not None and vc.trait == A.T_SYSDATA and vc.name == meth and "BatchSystemData" in (vc.self_arg_s or ""):
+                if k[0] == "add" and k[1] in ("extend", "append") and not k[3] and vc is not None and vc.trait == A.T_SYSDATA and vc.name == meth and "BatchSystemData" in (ev.self_arg(v) or ""):
                     good += 1
                 else:
                     problems.append("the %s operand also receives %s" % (label, vc.short() if vc is not None else str(v)[:40]))
@@ -153,14 +177,18 @@ def all_rule(ctx, report, facts, config, rule="C07.ALL"):
                 problems.append("the result is filled from %d places (expected one full traversal)" % len(elems))
                 continue
             k = elems[0]
-            if k[0] == "add" and k[1] not in ("push",):
+            if k[0] == "add" and k[1] not in ("push", "extend", "extend_from_slice"):
                 problems.append("the result is filled by `%s`" % k[1])
                 continue
             val = Q.strip(ev, k[2] if k[0] == "add" else k[1])
             loops = k[-1]
-            if len(loops) != 3:
-                problems.append("the elements are reached through %d nested traversal(s) (expected stages, groups, ids)" % len(loops))
+            whole = k[0] == "add" and k[1] != "push"   # the whole innermost collection is appended at once
+            if len(loops) + (1 if whole else 0) != 3:
+                problems.append("the elements are reached through %d nested traversal(s) (expected stages, groups, ids)" % (len(loops) + (1 if whole else 0)))
                 continue
+            from ..semcov import _term_class as _tc
+            if whole and _tc(ev, k[2]) != "full":
+                problems.append("the ids of a group pass through a partial adaptor before being appended")
             prev = None
             for depth, L in enumerate(loops):
                 src = Q.strip(ev, L.source)
